@@ -1978,7 +1978,7 @@ def m_assert(eng, st, ins, name, args):
     eng.obligations += 1
     if isinstance(c, int):
         if eng.replay is not None or st.threads is not None:
-            st.events.append("A %s %d" % (label[3:40], c & 1))
+            st.events.append("A %s %d" % (label[3:], c & 1))
         if not (c & 1):
             if eng.replay is not None:
                 st.events.append("VP_ASSERT_FAIL %s" % label[3:])
